@@ -138,7 +138,7 @@ def extract(cfg, log=None):
         lock.close()
 
 
-def _prune_cache(cfg, keep, maxn=40, max_age_s=6 * 3600):
+def _prune_cache(cfg, keep, maxn=400, max_age_s=6 * 3600):
     """Drop cache entries that are old, or beyond a generous count (parallel self-test runs share the cache)."""
     ents = [os.path.join(CACHE, e) for e in os.listdir(CACHE) if e.startswith(cfg + "-") and ".tmp" not in e]
     ents = [e for e in ents if e != keep]
